@@ -15,6 +15,9 @@ CLAIMS = {k: tuple(v) for k, v in json.load(open('/verif/tools/claims.json')).it
 
 NA_REASON = {
  "C11": "export->genesis->export relates two whole-state traversals through IAVL iteration, String()/JSON codecs; no function-level contract expresses it (DESIGN.md §6)",
+ "C06": "CheckTx-accepts-iff-DeliverTx-accepts is a relation between TWO executions of Run (check mode and deliver mode) on the same state: a 2-safety property. A contract of one call could only decide it through a pure specification of acceptance per transaction type that both modes are proved equal to; that specification does not exist and writing it amounts to re-modelling all 31 Run functions. What the contracts do cover of it: in check mode nothing is written (C03 'checkonly'), and the swap-pool gates evaluate the same quote the delivery will see (C15). No check is claimed for C06 itself (DESIGN.md §6, §9)",
+ "C08": "determinism across node instances is a property of two whole runs; its per-function core would be 'every write loop iterates a sorted key list'. The sorted lists are produced by sort.Slice with a closure comparator, which this engine models only as 'rearranges the slice' (no contract language for the comparator's order), so the sortedness of getOrderedDirty* and that no other map range reaches a write cannot be discharged here; goroutine scheduling is outside contracts altogether (DESIGN.md §6, §9)",
+ "C10": "recoverability after a crash at ANY write of Commit quantifies over crash points between writes and over what the Tendermint handshake does with the persisted height/hash pair (external code). A contract can state the write ORDER of Blockchain.Commit (history ghosts), but a failing order obligation could not be replayed against the real recovery path in this sandbox, and a passing one would not establish recoverability; rather than claim the order as if it were the property, no check is claimed (the post-height writes of validators/versions/emission/price are noted in DESIGN.md §7 as read, not replayed)",
  "C29": "state-sync pipeline is goroutines+channels+zlib+protobuf+IAVL import, outside the verifier's subset, and the property compares two nodes' whole futures (DESIGN.md §6)",
 }
 
